@@ -71,7 +71,7 @@ PLAN = {
         'note': COMMON_TRUST + 'Equality with a new context is at the level of the abstract state (buffer, raw keys, waiting sign; memo transparent by C05).',
     },
     'C07': {
-        'bounded': ['phonetic_api', 'history_independence'], 'data': ['tables'],
+        'bounded': ['phonetic_api', 'history_independence', 'emoji_tables'], 'data': ['tables'],
         'level': 'proof',
         'units': ['rank', 'util', 'phon', 'pmeth'],
         'technique': 'Verus: Rank::cmp == rank_cmp (class, number); assembly postcondition of suggest; push_checked duplicate-freedom at ranked-value level',
